@@ -52,6 +52,42 @@ M = [
  ("c09-supersonic-x2", ["C09"], "src/decoder/ehs/base.rs", "if is_supersonic { x * 4 }", "if is_supersonic { x * 2 }"),
  ("c09-gs-round", ["C09"], "src/decoder/ehs/base.rs", ".sqrt().floor() as u32", ".sqrt().round() as u32"),
  ("c09-vr-U-only-first", ["C09"], "src/decoder/plane/from_squitter/from_ext.rs", "        self.vrate = decoder::vertical_rate(message);\n        self.vrate_source = ' ';", "        self.vrate = self.vrate.or(decoder::vertical_rate(message));\n        self.vrate_source = ' ';"),
+ ("c08-nl-table-off", ["C08"], "src/decoder/adsb/position.rs", "(29.91135686, 52),", "(29.91135686, 51),"),
+ ("c08-mod60-odd", ["C08"], "src/decoder/adsb/position.rs", "fixed_lat(adl1 * ((j % 59.0) + (cpr_lat[1] as f64 / div))),", "fixed_lat(adl1 * ((j % 60.0) + (cpr_lat[1] as f64 / div))),"),
+ ("c08-no-signed-lon", ["C08"], "src/decoder/adsb/position.rs", "Some((rlat[cpr_form as usize], signed_lon(lon)))", "Some((rlat[cpr_form as usize], lon))"),
+ ("c08-le-10", ["C08"], "src/decoder/plane/update_position.rs", "                < 10\n", "                <= 10\n"),
+ ("c08-older-form", ["C08"], "src/decoder/adsb/position.rs", "Some((rlat[cpr_form as usize], signed_lon(lon)))", "Some((rlat[1 - cpr_form as usize], signed_lon(lon)))"),
+ ("c08-no-zero-guard", ["C08"], "src/decoder/plane/update_position.rs", "        if self.cpr_lat[0] != 0\n            && self.cpr_lat[1] != 0", "        if self.cpr_lat[0] != 0"),
+ ("c08-no-abs", ["C08"], "src/decoder/plane/update_position.rs", "                .num_seconds()\n                .abs()", "                .num_seconds()"),
+ ("c08-earth-radius", ["C08"], "src/decoder/plane/update_position.rs", "let r = 6371.0;", "let r = 6378.0;"),
+ ("c08-observer-swap", ["C08"], "src/decoder/observer.rs", "Ok(Coordinates { lat, lon })", "Ok(Coordinates { lat: lon, lon: lat })"),
+ ("c08-default-path-stale-time", ["C08", "C12"], "src/decoder/plane/from_downlink.rs", "        self.timestamp = chrono::Utc::now();\n", ""),
+ ("c08-nl-boundary-87", ["C08"], "src/decoder/adsb/position.rs", "(86.53536998, 3),", "(86.33536998, 3),"),
+ ("c10-gate-ca2", ["C10"], "src/decoder/plane/from_squitter.rs", "self.capability.0 > 3", "self.capability.0 > 2"),
+ ("c10-ignore-adv50", ["C10"], "src/decoder/plane/from_squitter/from_mode_s.rs", "if bds == (0, 0) && (relaxed || self.capability.1.bds50) {", "if bds == (0, 0) {"),
+ ("c10-drop-status-50", ["C10"], "src/decoder/bds/bds_5_0.rs", "        || !goodflags(message, 67, 68, 77)\n", ""),
+ ("c10-roll-plus90", ["C10"], "src/decoder/ehs/bds_5_0.rs", "_ => value - 90,", "_ => 90 - value,"),
+ ("c10-baro-700", ["C10"], "src/decoder/ehs/bds_4_0.rs", "Some(value / 10 + 800)", "Some(value / 10 + 700)"),
+ ("c10-50-before-40", ["C10"], "src/decoder/bds/bds_4_0.rs", "        || decoder::goodflags(message, 33, 84, 85)\n", ""),
+ ("c10-neg-rate-rejected", ["C10"], "src/decoder/bds/bds_5_0.rs", "(-16..=16).contains(x)", "(0..=16).contains(x)"),
+ ("c10-neg-vrate-60", ["C10"], "src/decoder/bds/bds_6_0.rs", ".is_some_and(|x| (-6000..=6000).contains(&x))\n                || bds60.barometric_altitude_rate.is_none())", ".is_some_and(|x| (0..=6000).contains(&x))\n                || bds60.barometric_altitude_rate.is_none())"),
+ ("c10-mach-scale", ["C10"], "src/decoder/ehs/bds_6_0.rs", "v.1 as f64 * 0.004", "v.1 as f64 * 0.008"),
+ ("c10-gs-shift", ["C10"], "src/decoder/ehs/bds_5_0.rs", "        .filter(|&f| f.0 == 1)\n        .map(|v| v.1 << 1)\n}\n\npub(crate) fn true_airspeed_5_0", "        .filter(|&f| f.0 == 1)\n        .map(|v| v.1 << 2)\n}\n\npub(crate) fn true_airspeed_5_0"),
+ ("c10-17-reserved-loose", ["C10"], "src/decoder/bds/bds_1_7.rs", "decoder::flag_and_range_value(message, 39, 61, 88)?", "decoder::flag_and_range_value(message, 39, 65, 88)?"),
+ ("c10-adv60-wrong-bit", ["C10"], "src/decoder/bds/bds_1_7.rs", "        (capability & 1) == 1,", "        (capability & 2) == 2,"),
+ ("c10-heading-sign", ["C10"], "src/decoder/ehs/bds_6_0.rs", "_ => heading + 180,", "_ => heading + 90,"),
+ ("c10-relaxed-ignored-40", ["C10"], "src/decoder/plane/from_squitter/from_mode_s.rs", "if bds == (0, 0) && (relaxed || self.capability.1.bds40) {", "if bds == (0, 0) && self.capability.1.bds40 {"),
+ ("c10-40-reserved-unchecked", ["C10"], "src/decoder/bds/bds_4_0.rs", "        || decoder::goodflags(message, 33, 72, 79)\n", ""),
+ ("c11-tc19-clears-callsign", ["C11"], "src/decoder/plane/from_squitter/from_ext.rs", "        self.vrate = decoder::vertical_rate(message);\n        self.vrate_source = ' ';", "        self.vrate = decoder::vertical_rate(message);\n        self.ais = None;\n        self.vrate_source = ' ';"),
+ ("c11-surface-keeps-alt", ["C11"], "src/decoder/plane/from_downlink/from_ext.rs", "        self.ground_movement = dl.ground_movement;\n        self.altitude = dl.altitude;", "        self.ground_movement = dl.ground_movement;"),
+ ("c11-forget-ss-U", ["C11", "C19"], "src/decoder/plane/from_squitter/from_ext.rs", "        self.altitude_source = ' ';\n        self.surveillance_status = decoder::surveillance_status(message);\n        self.update_cpr", "        self.altitude_source = ' ';\n        self.update_cpr"),
+ ("c11-df5-clears-alt", ["C11"], "src/decoder/plane/from_downlink/from_srt.rs", "                self.squawk = dl.squawk;", "                self.squawk = dl.squawk;\n                self.altitude = None;"),
+ ("c11-version-from-tc29", ["C11"], "src/decoder/downlink/extended/update.rs", "                31 => {\n                    self.update_mt_31(message);", "                29 | 31 => {\n                    self.update_mt_31(message);"),
+ ("c11-ident-default-skips-category", ["C11", "C07"], "src/decoder/plane/from_downlink/from_ext.rs", "            self.category = dl.message_type;", "            if self.category == (0, 0) {\n                self.category = dl.message_type;\n            }"),
+ ("c11-df20-alt-only-first", ["C11", "C05"], "src/decoder/plane/from_squitter/from_bcast.rs", "            self.altitude = decoder::altitude(message, df);", "            self.altitude = self.altitude.or(decoder::altitude(message, df));"),
+ ("c11-df11-resets-squawk", ["C11", "C06"], "src/decoder/plane/from_downlink/from_srt.rs", "                    self.capability.0 = v;", "                    self.capability.0 = v;\n                    if v == 0 {\n                        self.squawk = None;\n                    }"),
+ ("c11-refeed-toggles", ["C11"], "src/decoder/plane/from_squitter/from_ext.rs", "        self.adsb_version = decoder::version(message);", "        self.adsb_version = if self.adsb_version == decoder::version(message) { None } else { decoder::version(message) };"),
+ ("c10-40-fms-status-dropped", ["C10"], "src/decoder/bds/bds_4_0.rs", "        || !decoder::goodflags(message, 46, 47, 58)\n", ""),
 ]
 # mutants needing a second edit
 EXTRA = {
